@@ -881,7 +881,11 @@ func c12ChunkValues(cc parquet.ColumnChunk) (vals []parquet.Value, err error) {
 // pages cut at random row bounds and (2) after Pages().SeekToRow(k). Whatever the cuts, the chunk
 // must serve the values `whole` (what plain ReadPage calls gave), every value and every sliced
 // page under the target column index `ci`.
-func c12SlicedChunk(cc parquet.ColumnChunk, ci int, whole []parquet.Value, r *rand.Rand) (fails []c12Extra) {
+//
+// A difference is classified by what differs (c12SliceDiffClass): the key of a difference in
+// nullness or payload is another one than the key of a difference in levels or counts, so that
+// two defects of Slice/SeekToRow never share a key.
+func c12SlicedChunk(cc parquet.ColumnChunk, ci int, maxDef int, whole []parquet.Value, r *rand.Rand) (fails []c12Extra) {
 	fail := func(key, what string, detail map[string]any) {
 		if detail == nil {
 			detail = map[string]any{}
@@ -986,8 +990,9 @@ func c12SlicedChunk(cc parquet.ColumnChunk, ci int, whole []parquet.Value, r *ra
 			}
 		}
 		if !same(got, whole) {
-			fail("converted-page-slice:values-differ", "the slices of the pages yield other values than the whole pages",
-				map[string]any{"slices": cutsText, "whole": text(whole), "sliced": text(got)})
+			cls, why := c12SliceDiffClass(got, whole, maxDef)
+			fail("converted-page-slice:"+cls, "the slices of the pages yield other values than the whole pages ("+why+")",
+				map[string]any{"slices": cutsText, "whole": text(whole), "sliced": text(got), "difference": cls})
 		}
 	}()
 	// (2) seek: the values from row k on
@@ -1032,11 +1037,68 @@ func c12SlicedChunk(cc parquet.ColumnChunk, ci int, whole []parquet.Value, r *ra
 			got = append(got, vs...)
 		}
 		if want := whole[starts[k]:]; !same(got, want) {
-			fail("converted-chunk-seek:values-differ", fmt.Sprintf("after Pages().SeekToRow(%d) the chunk does not serve the values of rows %d..", k, k),
-				map[string]any{"seek": k, "expected": text(want), "got": text(got)})
+			cls, why := c12SliceDiffClass(got, want, maxDef)
+			fail("converted-chunk-seek:"+cls, fmt.Sprintf("after Pages().SeekToRow(%d) the chunk does not serve the values of rows %d.. (%s)", k, k, why),
+				map[string]any{"seek": k, "expected": text(want), "got": text(got), "difference": cls})
 		}
 	}()
 	return fails
+}
+
+// c12SliceDiffClass says WHAT differs between the values `got` of a re-read of a column chunk
+// (page slices, seek) and the values `want` of its whole pages:
+//
+//	null-flag-differs  a value whose IsNull() contradicts its definition level (null <=> level below
+//	                   the maximum of the column) where the whole pages have no such value, or more /
+//	                   fewer non-null values although the entry count is the same: a slice that turns
+//	                   nulls into values or values into nulls
+//	payload-differs    a non-null payload the whole pages never show
+//	values-differ      everything else: levels, entry counts, order
+//
+// The class depends only on the two value sequences and the column's maximal definition level.
+func c12SliceDiffClass(got, want []parquet.Value, maxDef int) (cls, why string) {
+	incoherent := func(vs []parquet.Value) (int, string) {
+		n, first := 0, ""
+		for _, v := range vs {
+			if v.IsNull() != (v.DefinitionLevel() < maxDef) {
+				if n == 0 {
+					first = fmt.Sprintf("%+v", v)
+				}
+				n++
+			}
+		}
+		return n, first
+	}
+	nonNull := func(vs []parquet.Value) (n int) {
+		for _, v := range vs {
+			if !v.IsNull() {
+				n++
+			}
+		}
+		return n
+	}
+	gi, first := incoherent(got)
+	wi, _ := incoherent(want)
+	if gi > 0 && wi == 0 {
+		return "null-flag-differs", fmt.Sprintf("%d values whose null flag contradicts their definition level (maximum %d), first %s; none in the whole pages", gi, maxDef, first)
+	}
+	if gn, wn := nonNull(got), nonNull(want); len(got) == len(want) && gn != wn {
+		return "null-flag-differs", fmt.Sprintf("%d non-null values, the whole pages hold %d among as many entries", gn, wn)
+	}
+	payloads := map[string]bool{}
+	for _, v := range want {
+		if !v.IsNull() {
+			payloads[fmt.Sprintf("%d:%x", v.Kind(), v.Bytes())] = true
+		}
+	}
+	if len(want) > 0 {
+		for _, v := range got {
+			if !v.IsNull() && !payloads[fmt.Sprintf("%d:%x", v.Kind(), v.Bytes())] {
+				return "payload-differs", fmt.Sprintf("value %+v is no value of the whole pages", v)
+			}
+		}
+	}
+	return "values-differ", "levels, count or order"
 }
 
 type c12Path struct {
@@ -1126,7 +1188,7 @@ var c12Paths = []c12Path{
 				// the same chunk read through slices of its pages, and after a seek: the values and
 				// their column index must not depend on how the pages are cut
 				if c.cuts != nil {
-					out.extra = append(out.extra, c12SlicedChunk(cc, ci, vals, c.cuts)...)
+					out.extra = append(out.extra, c12SlicedChunk(cc, ci, c.tleaves[ci].maxDef, vals, c.cuts)...)
 				}
 			}
 		}
@@ -1655,7 +1717,7 @@ func c12AddedKey(p c12Path, c *c12Case, col int) string {
 
 // ---------------------------------------------------------------- the check
 
-const c12Rule = "random source schemas (required/optional/repeated leaves of 8 physical kinds, groups, LIST groups, depth <= 4, <= 10 leaves, field order kept by an ordered group node) x random targets (pure permutation at every depth / delete + permute at any depth, then one of: nothing / add optional, required, repeated leaves and groups incl. inside repeated groups and lists / required->optional / optional->required / an incompatible change) x random rows shredded by the harness reference shredder x 15 library paths (Convert+conversion.Convert, ConvertRowGroup rows and column chunks - every chunk also re-read through Page.Slice at random row bounds and after Pages().SeekToRow(k) -, NewReader(schema), NewRowGroupReader(schema), NewGenericReader[any](schema), NewGenericRowGroupReader[any](schema) over a file row group and over a Buffer, CopyRows into a writer, WriteRowGroup of the converted row group, MergeRowGroups with a schema; and a random composition of views - MergeRowGroups(schema) / MultiRowGroup / ConvertRowGroup / row ranges over files and Buffers under the source and under the target schema - read through Rows(), NewGenericRowGroupReader[any], CopyRows, WriteRowGroup) + 5 struct pairs through Read[B], NewGenericReader[B], NewGenericRowGroupReader[B], Reader.Read(&B) and Reader.Read with the target type drawn per call + sorted sources (2-3 declared sorting columns, asc/desc, buffers and files) x targets dropping every subset of the sorting columns (declared order of the converted row group and of the merge must be a true order of the rows) + MergeRowGroups(schema, sorting) over two sorted files with small pages whose key ranges overlap in part (lone stretches > 1024 rows; targets delete/permute, then add / widen / narrow) read as rows, through CopyRows and WriteRowGroup; expected = reference shred of the projected value against the target schema; L2: conversion.Convert vs the Lean mirror convertRow, the harness projection vs the Lean spec, EqualNodes/SameNodes vs equalN/sameN, Reader.Read histories vs Rd.run, rowGroupReadsChunksInOrder on every node of every composed view vs inOrder; every library call runs in a worker subprocess (address-space limit, recover, timeout): a panic, fatal error or hang is an L1 failure of that case; non-trivial = the target differs from the source and a shared optional/repeated column holds both nulls and values"
+const c12Rule = "random source schemas (required/optional/repeated leaves of 8 physical kinds, groups, LIST groups, depth <= 4, <= 10 leaves, field order kept by an ordered group node) x random targets (pure permutation at every depth / delete + permute at any depth, then one of: nothing / add optional, required, repeated leaves and groups incl. inside repeated groups and lists / required->optional / optional->required / an incompatible change) x random rows shredded by the harness reference shredder x 15 library paths (Convert+conversion.Convert, ConvertRowGroup rows and column chunks - every chunk also re-read through Page.Slice at random row bounds and after Pages().SeekToRow(k); a difference is keyed by what differs: null flag against definition level, payload, levels/count -, NewReader(schema), NewRowGroupReader(schema), NewGenericReader[any](schema), NewGenericRowGroupReader[any](schema) over a file row group and over a Buffer, CopyRows into a writer, WriteRowGroup of the converted row group, MergeRowGroups with a schema; and a random composition of views - MergeRowGroups(schema) / MultiRowGroup / ConvertRowGroup / row ranges over files and Buffers under the source and under the target schema - read through Rows(), NewGenericRowGroupReader[any], CopyRows, WriteRowGroup) + 5 struct pairs through Read[B], NewGenericReader[B], NewGenericRowGroupReader[B], Reader.Read(&B) and Reader.Read with the target type drawn per call + sorted sources (2-3 declared sorting columns, asc/desc, buffers and files) x targets dropping every subset of the sorting columns (declared order of the converted row group and of the merge must be a true order of the rows) + MergeRowGroups(schema, sorting) over two sorted files with small pages whose key ranges overlap in part (lone stretches > 1024 rows; targets delete/permute, then add / widen / narrow) read as rows, through CopyRows and WriteRowGroup; expected = reference shred of the projected value against the target schema; L2: conversion.Convert vs the Lean mirror convertRow, the harness projection vs the Lean spec, EqualNodes/SameNodes vs equalN/sameN, Reader.Read histories vs Rd.run, rowGroupReadsChunksInOrder on every node of every composed view vs inOrder; every library call runs in a worker subprocess (address-space limit, recover, timeout): a panic, fatal error or hang is an L1 failure of that case; non-trivial = the target differs from the source and a shared optional/repeated column holds both nulls and values"
 
 // RunC12 is the parent: it never calls the library itself. The cases run in worker
 // subprocesses (`pqcheck -worker c12 ...`); when a worker dies (fatal error: out of memory,
@@ -2105,10 +2167,21 @@ func c12RandomCase(ctx *core.Ctx, d interface {
 				key := x.key + ":" + tg.mode
 				ci, _ := x.detail["target_column_index"].(int)
 				if added, _, _ := c12AddedShape(src, tgt, c.tleaves[ci].path); added {
-					// a column the target adds is served by missingColumnChunk, which mirrors an
-					// adjacent column through one shared page reader: same mechanism, same family as
-					// the other failures of added columns on the column-chunk path
-					key = c12AddedKey(p, c, ci) + ":" + strings.SplitN(x.key, ":", 2)[0]
+					parts := strings.SplitN(x.key, ":", 2)
+					if c.tleaves[ci].maxRep > 0 && len(parts) == 2 && parts[1] == "values-differ" {
+						// a column the target adds below a repeated node is served by
+						// missingColumnChunk mirroring an adjacent column through ONE shared page
+						// reader: the slices past the first / the pages after a seek find that reader
+						// consumed. That mechanism changes levels and entry counts only, and only
+						// where there is an adjacent chunk (maximal repetition level > 0): same family
+						// as the other failures of added columns on the column-chunk path.
+						key = c12AddedKey(p, c, ci) + ":" + parts[0]
+					} else {
+						// anything else - a flat added column (no adjacent reader to share) whose
+						// slices differ from its pages, nulls coming out as values, another payload -
+						// is another defect and keeps a key of its own
+						key = "added-column-slice-differs-from-page:" + strings.TrimPrefix(c12AddedKey(p, c, ci), "added-column-chunk-mirrors-adjacent:") + ":" + x.key
+					}
 				}
 				ctx.Fail("L1", key, "path "+p.name+", target column "+strings.Join(c.tleaves[ci].path, ".")+": "+x.what,
 					detail(map[string]any{"path": p.name, "column": strings.Join(c.tleaves[ci].path, "."), "finding": x.detail}))
